@@ -66,3 +66,9 @@
 (assert (forall ((sv (Array Int S)) (ix (Array Int Int)) (o Int) (n Int) (mv (Array Int Int)))
   (! (=> (> n 0) (= (ssumIdx sv ix o n mv) (sadd (ssumIdx sv ix o (- n 1) mv) (select sv (select mv (select ix (+ o (- n 1))))))))
      :pattern ((ssumIdx sv ix o n mv)))))
+; ---- byte-string length and XOF absorption symbols used by the Fiat-Shamir contexts ----
+(declare-fun blen (Bytes) Int)
+(assert (= (blen bempty) 0))
+(assert (forall ((b Bytes)) (! (and (>= (blen b) 0) (= (= (blen b) 0) (= b bempty))) :pattern ((blen b)))))
+(declare-fun hreseed (Bytes) Bytes)
+(declare-fun habsorb (Bytes Bytes) Bytes)
